@@ -10,7 +10,9 @@ CFG = {
              "to a header whose layout length equals that of h. fix_based_on_file_len is modelled verbatim and tied "
              "to the code differentially (valid headers x defects x file lengths, arbitrary word images).",
     "note": "Trusted: Lean kernel + 3 standard axioms; model Header.lean (+ Layout.lean of C02, HeaderTables.lean for "
-            "the concrete PixelInfo detection in the driver); correspondence check + generators.",
+            "the concrete PixelInfo detection in the driver and pinned_pixel_infos_wf - its table rows are translated from "
+            "the source into SrcTables.lean by tools/extract_tables.py on every run, so that theorem is re-checked for "
+            "the current rows); correspondence check + generators.",
     "profiles": ["release", "checked"],
     "level": "proof",
     "rule": "cases = D: valid headers (73 formats x image/volume/cube x geometries x mip counts {1,2,full-1,full,"
